@@ -154,6 +154,15 @@ def check_history(world, tree, runs, gt_snap, exp, label):
         proc = world.simulate_process(out, spec)
         after = snapshot(out)
         processed = list(proc.processed)
+        # a page also counts as processed when any of its output files was written (keeps the oracle
+        # independent of how the driver happens to call the page parser)
+        prefix = os.path.basename(out) + '/'
+        for wpath in proc.writes:
+            rel = wpath[len(prefix):] if wpath.startswith(prefix) else wpath
+            owners = [p for p in ids if any(rel == f for fs in exp[p].values() for f in fs)]
+            for p in owners:
+                if p not in processed:
+                    processed.append(p)
         killed = proc.exit == 'killed'
         if killed and 0 < proc.writes_done:
             crashed_inside = True
